@@ -183,8 +183,8 @@ def validate_files(ctx, bench, prop, name, daemons, mods, findings, stats, trace
     SW = {"VMD_NO_VERIFY": dict(verify=False), "VMD_DROPS_EXIT": dict(dropexit=True)}
     known_sw = {}
     for f in findings:
-        for name in f.get("match", {}).get("switches", []):
-            known_sw[name] = f
+        for swname in f.get("match", {}).get("switches", []):
+            known_sw[swname] = f
     cands = [[k] for k in SW if k in known_sw] + ([list(SW)] if all(k in known_sw for k in SW) else [])
     if r.violated == "Deadlock" and ev:
         for names in cands:
